@@ -144,9 +144,97 @@ func pairScenarios(thorough bool) []concScen {
 	return out
 }
 
+// tripleScenarios: every multiset of three operations from a reduced alphabet, one per thread, on a full two-entry cache:
+// three write events of one key (update, update, delete; insert-evict in between) reach the policies in every order.
+// seqPairScenarios: one thread issues two operations in a row against a single operation of another thread (a thread's
+// second event overtakes, or is overtaken by, the other thread's only one).
+func tripleScenarios(thorough bool) []concScen {
+	ops := []string{"set 1", "inv 1", "cw 1", "sia 1", "set 3", "get 1", "invall", "ci 1"}
+	cfgs := []CacheCfg{{MaxSize: 2, Executor: "caller"}}
+	if thorough {
+		cfgs = append(cfgs, CacheCfg{MaxSize: 2, Expiry: "accessing", TTL: 1000, Executor: "caller", ClockStart: 1 << 40}, CacheCfg{MaxSize: 2, Executor: "default"})
+	}
+	var out []concScen
+	for _, cfg := range cfgs {
+		for i, a := range ops {
+			for j, b := range ops[i:] {
+				for _, c := range ops[i+j:] {
+					if a == "get 1" && b == "get 1" && c == "get 1" {
+						continue
+					}
+					lbl := "triple:" + a + "‖" + b + "‖" + c + "/" + cfg.Executor
+					if cfg.Expiry != "" {
+						lbl += "/expiring"
+					}
+					out = append(out, concScen{lbl, cfg, []string{"set 1", "set 2", "get 2"}, [][]string{{a}, {b}, {c}}, "native"})
+				}
+			}
+		}
+	}
+	return out
+}
+
+// tripleCore: the triples that get two preemptions in the quick tier too (three writes of one key, or two and the
+// insert that evicts).
+func tripleCore(threads [][]string) bool {
+	for _, t := range threads {
+		switch t[0] {
+		case "set 1", "inv 1", "set 3":
+		default:
+			return false
+		}
+	}
+	return true
+}
+
+func seqPairScenarios(thorough bool) []concScen {
+	ops := []string{"set 1", "inv 1", "cw 1", "sia 1", "set 3", "get 1", "invall", "ci 1", "setmax 1", "load 3 val"}
+	cfgs := []CacheCfg{{MaxSize: 2, Executor: "caller"}}
+	if thorough {
+		cfgs = append(cfgs, CacheCfg{MaxSize: 2, Expiry: "accessing", TTL: 1000, Executor: "caller", ClockStart: 1 << 40}, CacheCfg{MaxSize: 2, Executor: "default"})
+	}
+	var out []concScen
+	for _, cfg := range cfgs {
+		for _, a := range ops {
+			for _, b := range ops {
+				if a == "get 1" && b == "get 1" {
+					continue
+				}
+				for _, c := range ops {
+					if c == "get 1" {
+						continue
+					}
+					lbl := "seqpair:" + a + ";" + b + "‖" + c + "/" + cfg.Executor
+					if cfg.Expiry != "" {
+						lbl += "/expiring"
+					}
+					out = append(out, concScen{lbl, cfg, []string{"set 1", "set 2", "get 2"}, [][]string{{a, b}, {c}}, "native"})
+				}
+			}
+		}
+	}
+	return out
+}
+
 func concPlan(oracles []string, pbQuick, pbThorough int, post ...string) func(thorough bool) []*Job {
 	return func(thorough bool) []*Job {
 		var jobs []*Job
+		for _, s := range tripleScenarios(thorough) {
+			p := concParams{Label: s.label, Cfg: s.cfg, Setup: s.setup, Threads: s.threads, Oracles: oracles, Post: post}
+			ppb := 1
+			if thorough || tripleCore(s.threads) {
+				ppb = 2
+			}
+			jobs = append(jobs, &Job{Scenario: "cache.conc", Params: js(p), Variant: s.variant, PB: ppb, Shards: 1, BudgetS: 120})
+		}
+		for _, s := range seqPairScenarios(thorough) {
+			p := concParams{Label: s.label, Cfg: s.cfg, Setup: s.setup, Threads: s.threads, Oracles: oracles, Post: post}
+			ppb := 1
+			if thorough {
+				ppb = 2
+			}
+			jobs = append(jobs, &Job{Scenario: "cache.conc", Params: js(p), Variant: s.variant, PB: ppb, Shards: 1, BudgetS: 120})
+		}
 		for _, s := range pairScenarios(thorough) {
 			p := concParams{Label: s.label, Cfg: s.cfg, Setup: s.setup, Threads: s.threads, Oracles: oracles, Post: post}
 			ppb := 2
@@ -211,6 +299,12 @@ func c05Seq(thorough bool) []*Job {
 		if cfg.Expiry != "" {
 			a = append(a, "adv 60", "adv 100", fmt.Sprintf("adv %d", tickNs))
 		}
+		jobs = append(jobs, seqJob(seqParams{Cfg: cfg, Alphabet: a, Audit: true}, depth-1, 8, budget, "states-audited"))
+	}
+	// entries whose calculator declined a deadline (never linked into the timer wheel) and that get one later through the
+	// per-entry setter or a read; and the reverse
+	for _, cfg := range []CacheCfg{{Expiry: "custom", TTL: 100, ClockStart: 1 << 40}, {MaxSize: 3, Expiry: "custom", TTL: 100, ClockStart: 1 << 40}} {
+		a := []string{"set 1 1 ttl=-1", "set 2 1 ttl=-1", "set 1", "set 3", "sea 1 30", "sea 2 30", fmt.Sprintf("sea 1 %d", tickNs+5), "get 1", "get 2", "inv 1", "cleanup", "adv 60", "adv 100", fmt.Sprintf("adv %d", 2*tickNs)}
 		jobs = append(jobs, seqJob(seqParams{Cfg: cfg, Alphabet: a, Audit: true}, depth-1, 8, budget, "states-audited"))
 	}
 	return jobs
